@@ -8,9 +8,9 @@ def run(chk):
     jobs = [dict(j, **{'assert': 'jsonref'}) for j in roundtrip.matrix('json', chk.tier, False)]
     if chk.only:
         jobs = [j for j in jobs if chk.only in textprops.job_name(j)]
-    nmax = max(j['N'] for j in jobs)
+    nmax = max([j['N'] for j in jobs if not j.get('alphabet')] or [0])
     from ..spec import json_ref
-    chk.bounds = dict(symbolic_payload_code_points='<=%d per document' % nmax, kinds_symbolic=roundtrip.TEXT_KINDS + roundtrip.ALPHA_KINDS,
+    chk.bounds = dict(symbolic_payload_code_points='<=%d per document (plus 6 over the metacharacter alphabet for str/uri)' % nmax, kinds_symbolic=roundtrip.TEXT_KINDS + roundtrip.ALPHA_KINDS,
                       positions_3_0=roundtrip.POS30, positions_2_0=roundtrip.POS20, versions=['2.0', '3.0'],
                       catalogue='concrete boundary values of the non-text kinds at every position, all mapped zones, 400+ microsecond values',
                       documents='single grid object and JSON array of two grids')
